@@ -9,6 +9,21 @@ import (
 
 func init() {
 	subGens["msg:wrongtype"] = genWrongType
+	// typed payloads that are plain Go maps, all six kinds: the emitted payload is the deterministic encoding
+	subGens["msg:gomap"] = func(r *rand.Rand, n int) []string {
+		var out []string
+		for i := 0; i < n; i++ {
+			kind := kindsAll[r.Intn(len(kindsAll))]
+			algs := algsForKind(kind)
+			k := genMsgKey(r, algs[r.Intn(len(algs))], false)
+			for len(k.kid) == 0 && kind == "sign" {
+				k = genMsgKey(r, algs[r.Intn(len(algs))], false)
+			}
+			p := buildProduce(r, kind, "gomap", genMapTok(r, 1, 2+r.Intn(5)), genHdrTok(r, 2), genHdrTok(r, 2), extTok(r), []msgKey{k})
+			out = append(out, p.line)
+		}
+		return out
+	}
 }
 
 // spec ops for C08 (strict CBOR in): a byte-string member replaced by an item of another non-null type must be
@@ -17,6 +32,12 @@ func execWrongType(op string, a []string) string {
 	switch op {
 	case "wire.wrongtype":
 		// wire.wrongtype <kind> <hex>
+		if reencode(a[0], unhx(a[1])) == "err" {
+			return "rejected"
+		}
+		return "accepted"
+	case "wire.badbucket":
+		// wire.badbucket <kind> <hex>: the protected bucket holds something other than exactly one strict map
 		if reencode(a[0], unhx(a[1])) == "err" {
 			return "rejected"
 		}
@@ -81,6 +102,30 @@ func genWrongType(r *rand.Rand, n int) []string {
 		}
 		data := append(append(append([]byte{}, p.data[:spans[k][0]]...), repl...), p.data[spans[k][1]:]...)
 		out = append(out, fmt.Sprintf("wire.wrongtype %s %s", kind, hx(data)))
+		// the protected bucket with content the strict decoder must refuse
+		if pm := p.data[spans[0][0]:spans[0][1]]; pm[0]>>5 == 2 {
+			pc, _ := bstrContent(pm)
+			junk := [][]byte{{0x00}, {0xa0}, {0xa1, 0x01, 0x26}, {0xff}, {0x5f, 0x41, 0x00}, {0xf6}, randBytes(r, 1+r.Intn(4))}[r.Intn(7)]
+			var bad []byte
+			switch r.Intn(8) {
+			case 0, 1: // a valid bucket followed by more octets
+				if len(pc) == 0 {
+					pc = []byte{0xa0}
+				}
+				bad = append(append([]byte{}, pc...), junk...)
+			case 2, 3: // the empty map followed by more octets
+				bad = append([]byte{0xa0}, junk...)
+			case 4: // indefinite-length map
+				bad = []byte{0xbf, 0x01, 0x26, 0xff}
+			case 5: // duplicate label
+				bad = []byte{0xa2, 0x01, 0x26, 0x01, 0x26}
+			case 6: // not a map
+				bad = [][]byte{{0x01}, {0x80}, {0x61, 0x61}, {0x40}, {0xf5}}[r.Intn(5)]
+			default: // label of a type / range the library refuses
+				bad = [][]byte{{0xa1, 0x41, 0x01, 0x00}, {0xa1, 0x1b, 0xff, 0xff, 0xff, 0xff, 0xff, 0xff, 0xff, 0xff, 0x00}, {0xa1, 0xf5, 0x00}, {0xa1, 0x3a, 0x80, 0x00, 0x00, 0x00, 0x00}}[r.Intn(4)]
+			}
+			out = append(out, fmt.Sprintf("wire.badbucket %s %s", kind, hx(replaceSpan(p.data, spans[0], bstrItem(bad)))))
+		}
 		if i%10 == 0 {
 			out = append(out, "cbor.encdup { int:1 int:7 i64:1 int:8 }", "cbor.encdup { u8:3 t:61 i16:3 t:62 int:3 t:63 }")
 		}
